@@ -346,6 +346,82 @@ def _rewrite_continue(body, applied):
     return body
 
 
+def _rewrite_early_return(body, applied):
+    """R24: `if C { A; return X; } REST-with-tail` at the top level of a fn body  ==  `if C { A; X } else { REST }`.
+    Verus checks the postcondition of a body with early returns after a control-flow join over a merged result
+    variable and loses the context of the straight-line path (met on FqVarExtension::isqrt once the constant fast path
+    was added); the structured form is checked branch by branch.  Applied from the last such `if` to the first."""
+    for _ in range(16):
+        sb = Src("<b>", body)
+        # top-level statements of the body: find `if` keywords at depth 1
+        depth = 0
+        cands = []
+        idx = 0
+        while idx < len(body):
+            if sb.mask[idx]:
+                c = body[idx]
+                if c in '([{':
+                    depth += 1
+                elif c in ')]}':
+                    depth -= 1
+                elif depth == 1 and body.startswith('if', idx) and not rsscan._identch(body, idx - 1) and not rsscan._identch(body, idx + 2):
+                    # statement start?  previous significant char must be ';' or '}' or '{'
+                    k = idx - 1
+                    while k >= 0 and (body[k].isspace() or not sb.mask[k]):
+                        k -= 1
+                    if k >= 0 and body[k] in ';{}':
+                        cands.append(idx)
+            idx += 1
+        done = True
+        for if_pos in reversed(cands):
+            # find the block of this if
+            k = if_pos + 2
+            d2 = 0
+            blk_open = None
+            while k < len(body):
+                if sb.mask[k]:
+                    if body[k] in '([':
+                        k = sb.match_close(k)
+                    elif body[k] == '{':
+                        blk_open = k
+                        break
+                k += 1
+            if blk_open is None:
+                continue
+            blk_close = sb.match_close(blk_open)
+            if re.match(r'\s*else\b', body[blk_close + 1:]):
+                continue
+            inner = body[blk_open + 1:blk_close]
+            m = re.search(r'\breturn\b\s*([^;]*?)\s*;\s*$', inner, re.S)
+            if not m or not sb.mask[blk_open + 1 + m.start()] or not m.group(1).strip():
+                continue
+            # `return` must be a direct statement of this block (depth 0 inside inner)
+            sub = Src("<i>", "{" + inner + "}")
+            dd = 0
+            ok = True
+            for t in range(1, 1 + m.start()):
+                if sub.mask[t]:
+                    if sub.text[t] in '([{':
+                        dd += 1
+                    elif sub.text[t] in ')]}':
+                        dd -= 1
+            if dd != 0:
+                continue
+            rest = body[blk_close + 1:len(body) - 1]
+            kt = _tail_start("{" + rest + "}")
+            tail = ("{" + rest + "}")[kt:-1].strip()
+            if not tail or tail.endswith(";"):
+                continue
+            new_inner = inner[:m.start()] + m.group(1).strip() + "\n        "
+            body = body[:blk_open] + "{" + new_inner + "} else {" + rest + "}\n}"
+            applied.append(("R24", "if C { A; return X; } REST", "if C { A; X } else { REST }"))
+            done = False
+            break
+        if done:
+            break
+    return body
+
+
 def _tail_start(body):
     """offset in `body` ('{...}') where the tail expression starts (after the last top-level statement)"""
     s = Src("<b>", body)
@@ -387,6 +463,38 @@ def _tail_start(body):
         last = j + 1
         i = j + 1
     return last
+
+
+def _split_top_commas(text):
+    """split a requires/ensures list at its top-level commas (not inside brackets or quantifier binders |..|)"""
+    out, depth, cur, i, in_binder = [], 0, "", 0, False
+    while i < len(text):
+        c = text[i]
+        if in_binder:
+            cur += c
+            if c == '|':
+                in_binder = False
+            i += 1
+            continue
+        if c == '|' and text[i:i + 2] != '||' and (i == 0 or text[i - 1] != '|') and re.search(r'(forall|exists|choose)\s*$', cur):
+            in_binder = True
+            cur += c
+        elif c in '([{':
+            depth += 1
+            cur += c
+        elif c in ')]}':
+            depth -= 1
+            cur += c
+        elif c == ',' and depth == 0:
+            if cur.strip():
+                out.append(cur.strip())
+            cur = ""
+        else:
+            cur += c
+        i += 1
+    if cur.strip():
+        out.append(cur.strip())
+    return out
 
 
 def build_fn(unit, item, imp, fnitem, spec: Fn, cover=False):
@@ -485,6 +593,8 @@ def build_fn(unit, item, imp, fnitem, spec: Fn, cover=False):
         if n21:
             applied.append(("R21", "a + b / a - b / a * b / a op= b", f"core::ops::<Trait>::<method>(a, b) x{n21}"))
     body = _rewrite_continue(body, applied)
+    if getattr(unit, "tail_assert", False):
+        body = _rewrite_early_return(body, applied)
     # R18: unroll constant-bound `for` loops (no invariant needed, so no reference to the body's locals)
     if spec.unroll:
         body = _unroll(unit, item, spec, body, applied)
@@ -534,7 +644,38 @@ def build_fn(unit, item, imp, fnitem, spec: Fn, cover=False):
     body = body[:k] + pre + body[k:]
     if spec.epilogue or spec.before_tail:
         k = _tail_start(body)
-        tail = body[k:-1].strip()
+        tail_end = len(body) - 1          # offset of the closing brace of the block that holds the tail
+        # after R24 the fn tail is `if C { .. } else { REST }`: the proof text belongs to the tail of REST
+        n24 = len([1 for a_ in applied if a_[0] == "R24"])
+        for _d in range(n24):
+            sb_ = Src("<b>", body)
+            t0 = body[k:tail_end]
+            if not re.match(r'\s*if\b', t0):
+                break
+            # last top-level '{' ... '}' of the tail is the else block
+            j = tail_end - 1
+            while j > k and (body[j].isspace() or not sb_.mask[j]):
+                j -= 1
+            if body[j] != '}':
+                break
+            # find its opening brace
+            d_ = 0
+            o = j
+            while o > k:
+                if sb_.mask[o]:
+                    if body[o] == '}':
+                        d_ += 1
+                    elif body[o] == '{':
+                        d_ -= 1
+                        if d_ == 0:
+                            break
+                o -= 1
+            if not re.search(r'\belse\s*$', body[k:o]):
+                break
+            inner_k = _tail_start(body[o:j + 1])
+            k, tail_end = o + inner_k, j
+        tail = body[k:tail_end].strip()
+        body_after = body[tail_end:]
         if not tail:
             raise Unsupported(f"{spec.name}: R10 needs a tail expression")
         new_tail = ""
@@ -544,7 +685,7 @@ def build_fn(unit, item, imp, fnitem, spec: Fn, cover=False):
             new_tail += "\n        let r_ = " + tail + ";\n        proof { " + spec.epilogue.strip() + " }\n        r_\n    "
         else:
             new_tail += "\n        " + tail + "\n    "
-        body = body[:k] + new_tail + "}"
+        body = body[:k] + new_tail + body_after
         applied.append(("R10", "tail expression E", "let r_ = E; proof {..}; r_"))
     fn_out = spec.name
     if spec.variant:
